@@ -31,6 +31,7 @@ Fails(c, s) ==
   CASE c.kind = "eval"    -> C01EvalFails(c)
     [] c.kind = "optable" -> C01OpTableFails(c)
     [] c.kind = "ttcode"  -> C01TTCodeFails(c)
+    [] c.kind = "pattern" -> C01PatternFails(c)
     [] c.kind = "opcode"  -> C01OpCodeFails(c)
     [] c.kind = "hist"    -> HistFails(c, s)
     [] c.kind = "partial" -> C15Fails(c)
